@@ -759,7 +759,7 @@ static int restore_mapping (char **str, svalue_t * sv) {
   else if ((size = restore_size (str, 1)) < 0)
     {
       debug_error ("corrupted");
-      return 0;
+      return ROB_MAPPING_ERROR; /* 0 would report success with *sv never written */
     }
 
   if (!size)
